@@ -7,6 +7,8 @@ for d in seeded/*/; do
   p=$(python3 -c "import json;print(json.load(open('$d/meta.json'))['property'])")
   extra=$(cat "$d/extra.txt" 2>/dev/null)
   echo "=== $id"
+  old=$(grep -o 'tests: [0-9].*' "$d/result.txt" 2>/dev/null | head -1)
   SKIP_TESTS=1 tools/try_mutant.sh "$here/$d" $p $extra > "$d/result.txt" 2>&1
+  [ -n "$old" ] && sed -i "s|tests: skipped|$old|" "$d/result.txt"
   grep "^DEMO\|^CHECK" "$d/result.txt" | cut -c1-200
 done
